@@ -51,7 +51,7 @@ def base_document(ctx):
     return doc
 
 
-def option_paths(doc):
+def option_paths(doc, platform='default'):
     """All (component index, key path) of scalar options inside components (the schema paths a fault can hit)."""
     out = []
 
@@ -65,7 +65,15 @@ def option_paths(doc):
                 out.append((ci, path + [k]))
     for ci, c in enumerate(doc['components']):
         walk(ci, c, [])
-    return out
+    # an option that the selected platform's override replaces is not part of the resolved component: outside the claim
+    def overridden(ci, path):
+        cur = doc['components'][ci].get('override', {}).get(platform, {})
+        for p_ in path:
+            if not isinstance(cur, dict) or p_ not in cur:
+                return False
+            cur = cur[p_]
+        return True
+    return [(ci, path) for ci, path in out if not overridden(ci, path)]
 
 
 def get_at(comp, path):
@@ -79,7 +87,7 @@ FAULTS = ['none', 'drop_component', 'retarget_reference', 'back_edge_same_stage'
           'misspell_option_key', 'unknown_section', 'mistype_option', 'undefined_variable', 'reference_to_later_stage']
 
 
-def inject(ctx, doc, fault):
+def inject(ctx, doc, fault, platform='default'):
     comps = doc['components']
     if fault == 'drop_component':
         # drop a component that somebody consumes from
@@ -120,18 +128,20 @@ def inject(ctx, doc, fault):
         comps[idx]['resourceRequests'] = {'numberProcesses': 1}
         return 'unknown section on %s' % comps[idx]['name']
     if fault == 'mistype_option':
-        paths = option_paths(doc)
+        paths = option_paths(doc, platform)
         ci, path = paths[ctx.choice('position', list(range(len(paths))))]
         parent, key = get_at(comps[ci], path)
         v = parent[key]
+        declared_int = path[-1] in ('numberProcesses', 'numberThreads', 'maxRestarts', 'replicate')
         if isinstance(v, bool):
             repl = ctx.choice('wrong_value', ['maybe', 3])
-        elif isinstance(v, int):
-            repl = ctx.choice('wrong_value', ['many', [1], True, 1.5])
+        elif isinstance(v, int) or declared_int:
+            repl = ctx.choice('wrong_value', ['many', [1], True])
         elif isinstance(v, list):
-            repl = ctx.choice('wrong_value', ['KnownIssue', 7])
+            repl = ctx.choice('wrong_value', [{'a': 'dict'}, 7])
         else:
-            repl = ctx.choice('wrong_value', [['a', 'list'], {'a': 'dict'}, 5])
+            # string-typed options accept any YAML scalar; containers are the wrong type
+            repl = ctx.choice('wrong_value', [['a', 'list'], {'a': 'dict'}])
         parent[key] = repl
         return 'mistyped %s.%s = %r (was %r)' % (comps[ci]['name'], '.'.join(path), repl, v)
     if fault == 'undefined_variable':
@@ -188,7 +198,7 @@ def body(ctx):
     doc = base_document(ctx)
     platform = ctx.choice('platform', ['default', 'p']) if 'p' in doc['platforms'] else 'default'
     fault = ctx.choice('fault', FAULTS)
-    what = inject(ctx, doc, fault)
+    what = inject(ctx, doc, fault, platform)
     g, err = load(doc, platform)
     detail = {'fault': fault, 'what': what, 'platform': platform, 'error': (type(err).__name__ + ': ' + str(err)[:300]) if
               isinstance(err, BaseException) else err}
@@ -248,7 +258,7 @@ def main(tier, seed, only=None):
     rep.bounds = {'base documents': '2-3 stages, 4-5 components; symbolic presence of replication, a platform override, a third stage; both platforms',
                   'faults': FAULTS, 'fault position': 'every option path of every component (misspell / mistype), every component (duplicate, self reference), '
                                                       'every consumed component (drop), every consumer (retarget)'}
-    rep.outside = ['DOSINI, CWL and DSL front ends', 'faults in DoWhile/Workflow documents', 'more than one fault per document',
+    rep.outside = ['options replaced by the override of the selected platform', 'string-typed options given as numbers (any YAML scalar is accepted by design)', 'DOSINI, CWL and DSL front ends', 'faults in DoWhile/Workflow documents', 'more than one fault per document',
                    'instance directories (is_instance=True)']
     rep.assumptions = ['each path writes one concrete package to a scratch directory and loads it with the real loader (20 s alarm = hang)',
                        'the solver chooses the base-document shape, the fault kind and its position']
